@@ -494,6 +494,29 @@ reg(Entry("CfdpLv.unpack", "tlv", _call_lv, lambda: _just_raw(st.one_of(st.binar
           len_fields=lambda r, c: [(0, 1)], obs=lambda x: {"value": _hx(x.value), "packed": _hx(x.pack()), "packet_len": int(x.packet_len)}, replen=lambda o, c: int(o.packet_len)))
 
 
+def _call_fss(b, c):
+    from spacepackets.cfdp.pdu.file_directive import DirectiveType, FileDirectivePduBase
+
+    conf = M.build_conf({"crc": 0, "large": c["large"], "mode": 0, "dir": 0, "segctrl": 0, "idw": 1, "seqw": 1, "src": 1, "dst": 2, "seq": 3})
+    base = FileDirectivePduBase(conf, DirectiveType.EOF_PDU, 0)
+    return base.parse_fss_field(b, c["idx"])
+
+
+def _st_fss_valid():
+    def mk(t):
+        large, idx, v, fill = t
+        w = 8 if large else 4
+        return {"cfg": {"large": large, "idx": idx}, "raw": _hx(bytes([fill]) * idx + (v & ((1 << (8 * w)) - 1)).to_bytes(w, "big"))}
+
+    return st.tuples(st.sampled_from([0, 1]), st.integers(0, 12), st.one_of(uint(64), st.sampled_from([0, 1, 0xFFFFFFFF, 0x100000000, (1 << 64) - 1])), uint(8)).map(mk)
+
+
+# the public helper that reads the file-size-sensitive field (4 octets, 8 with the large file flag) at a given index
+reg(Entry("FileDirectivePduBase.parse_fss_field", "cfdp_header", _call_fss, _st_fss_valid,
+          cfg=lambda: st.fixed_dictionaries({"large": st.sampled_from([0, 1]), "idx": st.integers(0, 12)}), head=lambda r, c: len(r),
+          obs=lambda o: {"next": int(o[0]), "size": int(o[1])}, replen=lambda o, c: int(o[0])))
+
+
 def st_generic_tlv():
     return st.tuples(st.sampled_from([0, 1, 2, 4, 5, 6]), st.one_of(st.binary(max_size=24), st.binary(min_size=200, max_size=255))).map(lambda t: R.tlv(t[0], t[1]))
 
@@ -646,16 +669,20 @@ def _st_tfdf_valid():
     def mk(t):
         kind, upid, pointer, tfdz = t
         rule_fixed = kind == "fixed"
-        return st.sampled_from(FP_RULES if rule_fixed else VP_RULES).map(
-            lambda rule: {"cfg": {"ft": "fixed" if rule_fixed else "variable", "trunc": kind == "truncated", "exact": None},
-                          "raw": _hx(RU.tfdf_header(rule, upid, pointer if rule_fixed else None) + tfdz)}
-        )
+        def one(rule_exact):
+            rule, exact_mode = rule_exact
+            raw = RU.tfdf_header(rule, upid, pointer if rule_fixed else None) + tfdz
+            # the caller states the TFDF length explicitly (as the frame decoder does) or lets it default to the buffer length
+            exact = {0: None, 1: len(raw), 2: len(raw) + 7}[exact_mode]
+            return {"cfg": {"ft": "fixed" if rule_fixed else "variable", "trunc": kind == "truncated", "exact": exact}, "raw": _hx(raw)}
+
+        return st.tuples(st.sampled_from(FP_RULES if rule_fixed else VP_RULES), st.sampled_from([0, 1, 1, 2])).map(one)
 
     return st.tuples(st.sampled_from(["fixed", "variable", "truncated"]), st.sampled_from(UPIDS), uint(16), st.binary(max_size=24)).flatmap(mk)
 
 
 reg(Entry("TransferFrameDataField.unpack", "uslp", _call_tfdf, _st_tfdf_valid,
-          cfg=lambda: st.fixed_dictionaries({"ft": st.sampled_from(["fixed", "variable", None]), "trunc": st.booleans(), "exact": st.none()}),
+          cfg=lambda: st.fixed_dictionaries({"ft": st.sampled_from(["fixed", "variable", None]), "trunc": st.sampled_from([False, True]), "exact": st.one_of(st.none(), st.integers(0, 40))}),
           delimited=False, head=lambda r, c: min(len(r), 3)))
 
 
